@@ -79,7 +79,7 @@ func (b *Builder) Build() (*DFA, error) {
 		nfa:              b.nfa,
 		config:           b.config,
 		prefilter:        pf,
-		pikevm:           nfa.NewPikeVM(b.nfa),
+		pikevm:           newPikevmPool(b.nfa),
 		byteClasses:      b.nfa.ByteClasses(),
 		unanchoredStart:  b.nfa.StartUnanchored(),
 		hasWordBoundary:  hasWordBoundary,
@@ -494,22 +494,20 @@ func CompileWithPrefilter(n *nfa.NFA, config Config, pf prefilter.Prefilter) (*D
 	return dfa, nil
 }
 
-// SetPikeVM replaces the DFA's internal PikeVM with an externally-provided one.
-// This enables sharing a single PikeVM between the Engine and its DFA(s),
-// eliminating duplicate PikeVM allocations (~15-20 KB each for 100-state NFA).
+// SetPikeVM offers the DFA an externally built PikeVM for its NFA fallback, so
+// that an Engine and its DFA need not each build one (Issue #158: with ~900
+// OWASP CRS patterns the duplicate PikeVMs were a major part of the memory
+// overhead). The instance becomes the first member of the DFA's fallback pool;
+// it must be built from the same NFA (or a compatible variant) as this DFA.
 //
-// Issue #158: Each DFA (forward, reverse, strategy-specific) previously created
-// its own PikeVM. With ~900 OWASP CRS patterns, many of which compile multiple
-// DFAs, this was a major contributor to the 16x memory overhead vs stdlib.
-//
-// The provided PikeVM must be built from the same NFA (or a compatible variant)
-// used to compile this DFA. Thread safety: PikeVM's Search methods use internal
-// state, so the DFA's NFA fallback path is not thread-safe. However, in practice
-// the meta layer always uses per-goroutine SearchState with its own PikeVM for
-// actual searches, and the DFA's embedded PikeVM is only used during DFA-internal
-// fallback within a single goroutine's search path.
+// The DFA never runs one PikeVM from two searches at once: every fallback takes
+// an instance from the pool for its own duration and further instances are
+// created on demand (see pikevmPool). The caller must not run pvm itself after
+// handing it over.
 func (d *DFA) SetPikeVM(pvm *nfa.PikeVM) {
-	d.pikevm = pvm
+	if pvm != nil {
+		d.pikevm.pool.Put(pvm)
+	}
 }
 
 // CompilePattern is a convenience function to compile a regex pattern directly to DFA.
